@@ -25,6 +25,12 @@ type verifC27Conn struct {
 	in     *bytes.Reader
 	out    bytes.Buffer
 	closed bool
+
+	// optional gate: the first Write announces itself on entered and waits for gate (a client whose
+	// socket buffer is full), so that another response can be written in between
+	gate    chan struct{}
+	entered chan struct{}
+	once    sync.Once
 }
 
 func (c *verifC27Conn) Read(p []byte) (int, error) {
@@ -34,6 +40,10 @@ func (c *verifC27Conn) Read(p []byte) (int, error) {
 	return c.in.Read(p)
 }
 func (c *verifC27Conn) Write(p []byte) (int, error) {
+	if c.gate != nil {
+		c.once.Do(func() { close(c.entered) })
+		<-c.gate
+	}
 	if c.closed {
 		return 0, io.ErrClosedPipe
 	}
@@ -89,8 +99,52 @@ type VerifC27Result struct {
 
 // VerifC27Run performs one request/response exchange on a fresh connection.
 func VerifC27Run(input []byte, keepAlive bool, script []VerifC27Action) VerifC27Result {
+	return verifC27RunOn(&verifC27Conn{in: bytes.NewReader(input)}, input, keepAlive, script)
+}
+
+// VerifC27Exchange is the input of one exchange of VerifC27RunPair.
+type VerifC27Exchange struct {
+	Input     []byte
+	KeepAlive bool
+	Script    []VerifC27Action
+}
+
+// VerifC27RunPair writes two responses on two connections with a fixed interleaving: exchange A runs in
+// its own goroutine and stalls inside its first write to the client socket (wherever the connection's
+// 4 KB buffer first overflows or is flushed — for a head larger than 4 KB that is inside
+// Header.WriteSubset); then exchange B runs from start to end; then A is released.  The schedule is
+// driven by channel events only.  hang reports that A neither stalled nor finished within 5 s.
+func VerifC27RunPair(a, b VerifC27Exchange) (ra, rb VerifC27Result, hang bool) {
+	ca := &verifC27Conn{in: bytes.NewReader(a.Input), gate: make(chan struct{}), entered: make(chan struct{})}
+	done := make(chan struct{})
+	go func() {
+		defer close(done)
+		defer func() {
+			if e := recover(); e != nil {
+				ra.ReadErr = "panic"
+			}
+		}()
+		ra = verifC27RunOn(ca, a.Input, a.KeepAlive, a.Script)
+	}()
+	select {
+	case <-ca.entered:
+	case <-done:
+	case <-time.After(5 * time.Second):
+		close(ca.gate)
+		return ra, rb, true
+	}
+	rb = VerifC27Run(b.Input, b.KeepAlive, b.Script)
+	close(ca.gate)
+	select {
+	case <-done:
+	case <-time.After(5 * time.Second):
+		return VerifC27Result{}, rb, true
+	}
+	return ra, rb, false
+}
+
+func verifC27RunOn(fc *verifC27Conn, input []byte, keepAlive bool, script []VerifC27Action) VerifC27Result {
 	var res VerifC27Result
-	fc := &verifC27Conn{in: bytes.NewReader(input)}
 	srv := verifC27Server(keepAlive)
 	c, _ := newConn(fc, srv)
 	rd := c.buf.Reader
